@@ -114,7 +114,8 @@ def rare_values(repo, chk):
             continue
         # local tallies: names bound to an empty Counter / defaultdict(int) in this function (a batch is counted there first and merged afterwards)
         tallies = {n.targets[0].id for n in own_nodes(fn.node) if isinstance(n, ast.Assign) and len(n.targets) == 1 and isinstance(n.targets[0], ast.Name) and isinstance(n.value, ast.Call)
-                   and ast.unparse(n.value) in ('Counter()', 'collections.Counter()', 'defaultdict(int)', 'collections.defaultdict(int)')}
+                   and (ast.unparse(n.value) in ('Counter()', 'collections.Counter()', 'defaultdict(int)', 'collections.defaultdict(int)')
+                        or ast.unparse(n.value.func) in ('Counter', 'collections.Counter'))}           # Counter(<the pairs of this batch>) is a per-batch tally too
         tallies |= local_aliases(fn, tallies) if tallies else set()
 
         def over_tally(ch):
@@ -241,6 +242,20 @@ def rare_values(repo, chk):
         elif adds:
             chk.expect(ok_del, 'C13.2c', 'R13', fn.site(dels[0][0]['node']), ast.unparse(dels[0][0]['node']), 'every retired pair leaves the rare-value report',
                        'a pair whose count exceeded the threshold is retired but not removed from the rare-value store: frequent values are reported as rare', soft=True)
+    # 2d (independent of the path model): the pairs that exceed the bound are looked for among the RUNNING counts, never in a per-batch tally
+    tallies_ = {n.targets[0].id for n in own_nodes(fn.node) if isinstance(n, ast.Assign) and len(n.targets) == 1 and isinstance(n.targets[0], ast.Name) and isinstance(n.value, ast.Call)
+                and ast.unparse(n.value.func) in ('Counter', 'collections.Counter', 'defaultdict', 'collections.defaultdict')}
+    tallies_ |= local_aliases(fn, tallies_) if tallies_ else set()
+    bound_names = {'rare_value_count_upper_bound'} | {n.targets[0].id for n in own_nodes(fn.node) if isinstance(n, ast.Assign) and len(n.targets) == 1 and isinstance(n.targets[0], ast.Name)
+                                                      and isinstance(n.value, ast.Attribute) and n.value.attr == 'rare_value_count_upper_bound'}
+    for n in own_nodes(fn.node):
+        gens = n.generators if isinstance(n, (ast.ListComp, ast.SetComp, ast.GeneratorExp, ast.DictComp)) else []
+        for g in gens:
+            it = g.iter
+            if isinstance(it, ast.Call) and isinstance(it.func, ast.Attribute) and it.func.attr == 'items' and isinstance(it.func.value, ast.Name) and it.func.value.id in tallies_ \
+                    and any(isinstance(x, ast.Compare) and any((isinstance(y, ast.Name) and y.id in bound_names) or (isinstance(y, ast.Attribute) and y.attr == 'rare_value_count_upper_bound') for y in ast.walk(x)) for c_ in g.ifs for x in ast.walk(c_)):
+                chk.bad('C13.2a', 'R14', fn.site(n), ast.unparse(n).replace('\n', ' ')[:120], f'the pairs above the bound are looked for in the per-batch tally `{it.func.value.id}`: a pair is retired only when it exceeds the bound within ONE batch; '
+                        'a pair that exceeds it across batches stays in the rare-value report, so the report depends on how the rows are split into batches')
     store_al = {'GLOBAL_RARE_VALUE_STORAGE'} | local_aliases(fn, {'GLOBAL_RARE_VALUE_STORAGE'})
     ign_al = {'IGNORED_VALUES'} | local_aliases(fn, {'IGNORED_VALUES'})
     # the retirement set persists: the global is re-bound only to its own alias; the alias is the global (not a fresh set)
@@ -606,7 +621,20 @@ def coverage(repo, chk):
         lp2 = par.get(par.get(c))
         if isinstance(lp2, ast.For) and isinstance(lp2.target, ast.Tuple) and isinstance(lp2.iter, ast.Call) and ast.unparse(lp2.iter.func).endswith('.items') and ast.unparse(c.func.value.slice) == lp2.target.elts[0].id and ast.unparse(c.args[0]) == lp2.target.elts[1].id:
             good += 1
-    chk.expect(good >= 2 and good == len(apps), 'C13.5c', 'R13', est.site(apps[0]) if apps else est.site(), f'{good} per-batch coverage accumulations', 'each processed batch (including the tail) contributes its percentage once', 'every processed batch (loop and tail) must append its coverage percentage once per column')
+    # the per-batch percentages are kept, one per batch: a store that replaces a column's list by an aggregate of itself (a running mean) makes the
+    # final figure a mean of means that weights later batches more
+    for n_ in own_nodes(est.node):
+        if isinstance(n_, ast.Assign) and len(n_.targets) == 1 and isinstance(n_.targets[0], ast.Subscript) and 'coverage' in ast.unparse(n_.targets[0].value) \
+                and any(isinstance(x, ast.Subscript) and ast.unparse(x.value) == ast.unparse(n_.targets[0].value) and ast.unparse(x.slice) == ast.unparse(n_.targets[0].slice) and isinstance(x.ctx, ast.Load) for x in ast.walk(n_.value)) \
+                and any(isinstance(x, ast.Call) and ((est.module.dotted(x.func) or '') in ('numpy.mean', 'numpy.average', 'statistics.mean', 'numpy.median') or (isinstance(x.func, ast.Name) and x.func.id == 'sum')) for x in ast.walk(n_.value)):
+            chk.bad('C13.5c', 'R13', est.site(n_), ast.unparse(n_).replace('\n', ' ')[:120], 'the list of per-batch coverage percentages of a column is replaced by an aggregate of itself and the new batch (a running mean): '
+                    'the reported coverage is then not the mean of the per-batch percentages (later batches weigh more), and depends on the batch order')
+    n_eval = len([c for c in calls(est) if (est.module.dotted(c.func) or '').endswith('.compute_batch_ranking')])
+    # every place that evaluates a batch (the loop, the tail) is followed by one accumulation; where the accumulations live in code this rule does
+    # not see (a ledger object) there are none to count and the rule abstains
+    firm = n_eval >= 1 and len(apps) >= 1
+    chk.expect(good == len(apps) and ((good >= 2 and good >= n_eval) if firm else good >= 2), 'C13.5c', 'R13', est.site(apps[0]) if apps else est.site(), f'{good} per-batch coverage accumulations for {n_eval} batch evaluation site(s)',
+               'each processed batch (including the tail) contributes its percentage once', 'every processed batch (loop and tail) must append its coverage percentage once per column', soft=not firm)
 
 
 # -- 5 / 6 -------------------------------------------------------------------------------------
